@@ -107,6 +107,15 @@ func LibCall(name string, obj any) {
 	}
 }
 
+// OSFn marks a call of a file-system function of package os as a visible step of its own: the scheduler may switch
+// before it. The call itself stays the real one (the file system is shared state the runtime does not model further).
+func OSFn[F any](f F, name string) F {
+	if e := cur(); e != nil {
+		e.yield(&pendingOp{kind: opGeneric, name: name, obj: "fs"})
+	}
+	return f
+}
+
 func (e *Exec) libsync(k uintptr) *Sync {
 	m, _ := e.envs["libsync"].(map[uintptr]*Sync)
 	if m == nil {
